@@ -249,6 +249,25 @@ Section TextWidth.
       rewrite E, Hw, (Hf Hfit). reflexivity.
   Qed.
 
+  (* Eliding is idempotent: what elide_* returns already fits, so eliding it again with the same
+     ellipsis and limit returns it unchanged, with the same reported width. *)
+  Lemma elide_idempotent : forall text ell max out w,
+    (elide_start cw text ell max = EOut out w -> elide_start cw out ell max = EOut out w)
+    /\ (elide_end cw text ell max = EOut out w -> elide_end cw out ell max = EOut out w).
+  Proof.
+    intros text ell max out w. split; intros E.
+    - assert (Hb : (swidth out <= max)%nat)
+        by (apply (elide_width_bound text ell max out w); left; exact E).
+      assert (Hw : w = swidth out)
+        by (apply (elide_reported_width text ell max out w); left; exact E).
+      rewrite Hw. exact (proj1 (elide_fits_unchanged out ell max Hb)).
+    - assert (Hb : (swidth out <= max)%nat)
+        by (apply (elide_width_bound text ell max out w); right; exact E).
+      assert (Hw : w = swidth out)
+        by (apply (elide_reported_width text ell max out w); right; exact E).
+      rewrite Hw. exact (proj2 (elide_fits_unchanged out ell max Hb)).
+  Qed.
+
   (* ---------------------------------------------------------------- write_truncated_* *)
 
   Section Measures.
